@@ -57,14 +57,16 @@ def ltxt(legs):
 # the steps of the unchanged pipeline that attach a vertex to the centre WITHOUT running check_dependency_one_leg first
 # (morph_factory.py: append_to_two_center, and the centre branch of step VI); a dependent single leg that comes in
 # through any other step is not the known defect
-UNCHECKED_SITES = {"append_to_two_center", "_append_long_leg_only_last_lit"}
+UNCHECKED_SITES = {"append_to_two_center", "_append_long_leg_only_last_lit",
+                   # a vertex replaced by an equivalent one (no step re-tests dependence after a replacement)
+                   "replace@_append_one_legs_in_different_state", "replace@_append_long_leg_only_last_lit"}
 
 
 def signature(morphs, attach_sites=None):
     """known-finding signature: a canonical single leg is the product of other single legs of its graph, AND the unchanged
     library could not have seen it: either every such relation needs at least five other legs (check_dependency_one_leg only
-    searches three-term relations), or the relation has three other legs and the one of its four legs that was attached last came in through a step
-    that does not run the check (UNCHECKED_SITES; call sites observed by cls.attach_trace).  A three-leg relation that
+    searches three-term relations), or the relation has three other legs and the event that completed it (the last attachment or replacement of one
+    of its four legs) happened in a step that does not run the check (UNCHECKED_SITES; call sites observed by cls.attach_trace).  A three-leg relation that
     came in through a checked step (e.g. _append_fast) is a different defect."""
     import itertools
     found = False
@@ -91,9 +93,10 @@ def signature(morphs, attach_sites=None):
             if len(best) - 1 >= 5:
                 found = True
                 continue
-            # the leg of the relation that was attached last is the one a dependency test would have had to stop
-            tagged = [str((attach_sites or {}).get(x, "-1:?")).split(">")[0].split(":", 1) for x in best]
-            last_site = max(tagged, key=lambda t: int(t[0]))[1] if tagged else "?"
+            # the event (attachment or replacement of one of the legs of the relation) that happened last is the one that
+            # completed the relation: a dependency test would have had to run there
+            events = [ev.split(":", 1) for x in best for ev in str((attach_sites or {}).get(x, "-1:?")).split(">")]
+            last_site = max(events, key=lambda t: int(t[0]))[1] if events else "?"
             if last_site in UNCHECKED_SITES:
                 found = True
                 continue
